@@ -15,7 +15,7 @@ pub fn run_c13(ctx: &mut Ctx) {
     rep.exhaustive = level >= 1;
     set_case_str("C13 block values");
     // ---- encode/decode: num x more x szx
-    let step = if level == 0 { 37 } else { 1 };
+    let step = if level == 0 { 997 } else { 1 };
     let mut num = 0u32;
     while num <= 65535 {
         if (num as u64) % nshards == shard {
@@ -107,7 +107,13 @@ pub fn run_c13(ctx: &mut Ctx) {
     let mut buf = Vec::new();
     for len in 0..=3usize {
         let n = 1u64 << (8 * len);
-        let stride = if len == 3 && level < 2 { if level == 0 { 4099 } else { 61 } } else { 1 };
+        let stride = if level == 0 {
+            [1u64, 7, 1021, 262_147][len]
+        } else if len == 3 && level < 2 {
+            61
+        } else {
+            1
+        };
         let mut v = 0u64;
         while v < n {
             idx += 1;
@@ -144,7 +150,7 @@ pub fn run_c13(ctx: &mut Ctx) {
     let mut cidx = 0u64;
     for &num in nums.iter() {
         // every size for a handful of block numbers, boundary sizes for all
-        let dense = matches!(num, 0 | 1 | 4095 | 4096 | 65535 | 65536) || num == usize::MAX;
+        let dense = level > 0 && (matches!(num, 0 | 1 | 4095 | 4096 | 65535 | 65536) || num == usize::MAX);
         for &size in sizes.iter() {
             if !dense && !(size <= 40 || (size >= 1020 && size <= 1030) || (size >= 2040 && size <= 2050) || (size >= 4090 && size <= 4100) || size > 8200) {
                 continue;
